@@ -1066,7 +1066,7 @@ package larking
 //@ spec FieldPathWf(fds) = (forall y :: {at(fds, y)} off(fds) <= y && y < off(fds) + len(fds) - 1 ==> SingularMsg(at(fds, y)))
 //@      && (forall y :: {at(fds, y)} off(fds) <= y && y < off(fds) + len(fds) ==> at(fds, y) != nil)
 
-//@ func fieldPath serves C09 C04 C16
+//@ func fieldPath serves C09 C04 C16 C03
 //@   witness verifWitnessQueryPaths
 //@   requires fieldDescs != nil
 //@   modifies fresh E$protoreflect.FieldDescriptor
@@ -1080,7 +1080,7 @@ package larking
 //@   loop 1 decreases len(names) - rangeindex
 
 //@ spec ParamsWf(ps) = forall x :: {at(ps, x).fds} off(ps) <= x && x < off(ps) + len(ps) ==> FieldPathWf(at(ps, x).fds)
-//@ func (params).set serves C09 C07
+//@ func (params).set serves C09 C07 C03
 //@   returns (err)
 //@   requires m != nil && ParamsWf(ps)
 //@   modifies G$pb.
